@@ -103,19 +103,25 @@ P = {
          "StreamWriter boundary); the model is per-cycle, the interleaving of a fault with in-flight frame handling is exercised, not modelled."),
  "C12": ("Theorem C12_terminates (closed): for every state (connected or not, any number of queued / unprocessed frames, silent or talking "
          "controller, reconnect chain pending or not, any pending tasks of devices, mixers and thermostats with any indexes) the close() model "
-         "returns within the drain bound (20 s) + transport close timeout, leaves no task pending and the transport closed; three refutation "
-         "theorems show each pinned behaviour (unbounded join, device shutdown only when connected, index-merged sub-devices) violates it. Real "
+         "returns within the drain bound (20 s) + transport close timeout, leaves no task pending and the transport closed; C12_cancel_all (every "
+         "registered live task is cancelled whatever finished tasks are still registered and in whatever order the set is walked); four refutation "
+         "theorems show each pinned behaviour (unbounded join, device shutdown only when connected, index-merged sub-devices, short-circuiting "
+         "cancel_tasks) violates it. Real "
          "Connection.close() is issued at the end of every prefix of generated histories under the virtual-time loop (quiescent deadlock "
          "detection), observing return, duration, asyncio.all_tasks() afterwards and transport close calls.",
          "partial: the model maps the state read from the implementation just before close() to the outcome; it does not model the interleaving "
-         "of close() with a connection loss in progress (such a race, D19, was found by the harness and repaired)."),
+         "of close() with a connection loss in progress (such a race, D19, was found by the harness and repaired; D20, close() in the iteration of a "
+         "reconnect hand-over, likewise - its histories are repeated because the walk order of the task set is not controllable)."),
  "C13": ("Theorems over every operation sequence of the event-manager model (subscribe, subscribe_once, unsubscribe, dispatch tasks, resumption "
          "of suspended callbacks, get with timeout, clock advance; induction with invariants, closed): C13_once (a subscribe_once callback is awaited "
          "at most once), C13_snapshot + C13_spawn_snapshot (every awaited callback belongs to the snapshot its dispatch took when it started, which "
-         "is the subscription list of that moment), C13_unsubscribe, C13_getter (a getter only returns values stored by some dispatch). The monitor "
-         "P13 of the whole property (order, value threading, store, wake, getters, timeouts) is evaluated on the implementation's log of every history.",
-         "partial: the ordering / value-threading clause is checked by the monitor on every explored history of model and implementation but not proved "
-         "for all histories; CPython's ready-queue order within one loop iteration is fixed by letting the loop settle after each operation."),
+         "is the subscription list of that moment), C13_unsubscribe, C13_getter (a getter only returns values stored by some dispatch), and C13_monitor: "
+         "the chronological log of EVERY operation sequence is accepted by the monitor P13 of the whole property (callbacks of the snapshot in "
+         "subscription order skipping only unsubscribed once-wrappers, each handed the value returned by the previous one, store after the whole "
+         "snapshot, every waiter woken at once, getters return the stored value, a wait times out only while no value exists) - a refinement proof "
+         "with the monitor state as a function of the model state. The same monitor is evaluated on the implementation's log of every history.",
+         "CPython's ready-queue order within one loop iteration is fixed by letting the loop settle after each operation; the model/implementation "
+         "tie is the correspondence of logs on the explored histories."),
  "C14": ("Theorems C14_noise (documented outcomes, progress, bounded wait <= 1000 bytes after the delimiter, tiling, iteration ends with the "
          "broken-stream signal) C14_resync_clean and C14_resync_interior_free (after ANY noise a run of k >= 2 + 1000/|frame| copies of a deliverable frame whose "
          "encoding has no 0x68 after its first byte is picked up - induction over the calls of the iteration) - closed; for frames with an interior "
